@@ -77,8 +77,8 @@ def setup():
 
 def batches(tier):
     if tier == "quick":
-        return [("clean", 260), ("faults", 180)]
-    return [("clean", 9000), ("faults", 6000)]
+        return [("clean", 220), ("faults", 160), ("exh", len(exh_sequences(2)))]
+    return [("clean", 9000), ("faults", 6000), ("exh", len(exh_sequences(3)))]
 
 
 # ----------------------------------------------------------------------------
@@ -601,8 +601,94 @@ def random_mutator(rng: PlanRng, sym: Sym, meta, first=False):
 
 FAULT_KINDS = ["line_interrupt", "solver_error", "warnings_as_errors", "errstate_raise"]
 
+# ---- exhaustive short histories ("exhaustively up to a bounded length") -----------------------
+# 15 concrete mutator variants; '{k}' is resolved to the current number of sources when the
+# sequence is instantiated.  needs: 's' = a registered system, 't' = registered targets.
+EXH_ALPHABET = [
+    ("", {"m": "register_system", "sources": "S0", "domain": None, "lb": None, "ub": "ub{k0}a"}),
+    ("", {"m": "register_system", "sources": "S1", "domain": None, "lb": "lbs", "ub": "ubs1"}),
+    ("s", {"m": "register_bounds", "lb": None, "ub": "ub{k}b"}),
+    ("s", {"m": "register_bounds", "lb": "lb{k}a", "ub": None}),
+    ("", {"m": "register_adaptation", "K": "Kv0"}),
+    ("", {"m": "register_adaptation", "K": "Km"}),
+    ("", {"m": "register_baseline", "baseline": "bv0"}),
+    ("", {"m": "register_baseline", "baseline": "b0"}),
+    ("", {"m": "register_background_adaptation", "background": "bg0", "domain": None,
+          "add_baseline": True, "add": False}),
+    ("", {"m": "register_background_adaptation", "background": "bg1", "domain": None,
+          "add_baseline": False, "add": True}),
+    ("s", {"m": "register_system_adaptation", "x": "x{k}a", "add_baseline": True, "add": False}),
+    ("s", {"m": "register_system_adaptation", "x": "x{k}b", "add_baseline": True, "add": True}),
+    ("s", {"m": "register_targets", "B": "Bt0", "W": None}),
+    ("s", {"m": "register_targets", "B": "Bt1", "W": "Wt0"}),
+    ("t", {"m": "fit"}),
+]
+_EXH_CACHE = {}
+
+
+def exh_sequences(max_len):
+    """All valid sequences of alphabet indices of length 1..max_len (validity depends only on
+    whether a system / targets are registered).  Every sequence is preceded, when executed, by
+    nothing: the estimator starts empty, so sequences starting with a system-dependent op are
+    invalid and not enumerated; to still exercise those ops at depth, sequences are also
+    enumerated *after a fixed prefix* [register_system S0]."""
+    if max_len in _EXH_CACHE:
+        return _EXH_CACHE[max_len]
+    out = []
+
+    def rec(seq, has_s, has_t, prefix):
+        if seq:
+            out.append((prefix, tuple(seq)))
+        if len(seq) == max_len:
+            return
+        for i, (need, op) in enumerate(EXH_ALPHABET):
+            if need == "s" and not has_s:
+                continue
+            if need == "t" and not has_t:
+                continue
+            rec(seq + [i], has_s or op["m"] == "register_system",
+                has_t or op["m"] == "register_targets", prefix)
+
+    rec([], False, False, False)
+    rec([], True, False, True)
+    _EXH_CACHE[max_len] = out
+    return out
+
+
+def generate_exh(rs, tier, index):
+    rng = PlanRng(rs)
+    pool, meta = make_pool(rng)
+    seqs = exh_sequences(2 if tier == "quick" else 3)
+    prefix, seq = seqs[index % len(seqs)]
+    ops = []
+    sym = Sym()
+    idxs = ([0] if prefix else []) + list(seq)
+    for i in idxs:
+        op = dict(EXH_ALPHABET[i][1])
+        k = sym.n_src
+        for key, v in list(op.items()):
+            if isinstance(v, str) and "{k0}" in v:
+                op[key] = v.replace("{k0}", str(meta["n_src"]["S0"]))
+            elif isinstance(v, str) and "{k}" in v:
+                op[key] = v.replace("{k}", str(k))
+        s2 = sym.copy()
+        assert sym_apply(s2, op, meta), (op, idxs)
+        sym = s2
+        ops.append(op)
+    fb = [{"q": "fit", "a": {"B": "Bq1"}}, {"q": "range_of_solutions", "a": {"B": "Bq0"}},
+          {"q": "sample_in_gamut", "a": {"n": 5, "seed": 2}}, {"q": "compute_gamut", "a": {"seed": 2}},
+          {"q": "in_gamut", "a": {"B": "Bq1", "relative": False}},
+          {"q": "gamut_l1_scaling", "a": {"B": "Bq0"}}]
+    return {"check": ID, "run_seed": rs, "mode": "exh", "pool": pool, "meta": meta,
+            "clients": [{"id": 0, "ctor": {"w": None}, "ops": ops}],
+            "schedule": [0] * len(ops), "battery": cheap_battery(meta), "pristine": False,
+            "full_battery_every": 0, "full_battery": fb,
+            "exh": {"prefix": prefix, "seq": list(seq)}}
+
 
 def generate(rs, mode, tier, index):
+    if mode == "exh":
+        return generate_exh(rs, tier, index)
     rng = PlanRng(rs)
     pool, meta = make_pool(rng)
     n_clients = rng.choice([1, 2, 3], p=[0.5, 0.3, 0.2])
@@ -946,6 +1032,8 @@ def execute(plan):
     if len(states) > 1:
         bump("reach:multi_client_runs")
     nontrivial = (tot_dead + tot_swaps) > 0 or bool(cov_parts["faults"])
+    if plan["mode"] == "exh":
+        bump("exhaustive_sequences_executed")
     regclass = []
     for cs in states.values():
         last = {}
@@ -1080,7 +1168,14 @@ def extra_evidence(results):
         for k, v in r.get("counters", {}).items():
             if k.startswith("crash:"):
                 pts[k[6:]] = pts.get(k[6:], 0) + v
-    return {"distinct_crash_points_hit": len(pts),
+    n_exh = sum(r.get("counters", {}).get("exhaustive_sequences_executed", 0) for r in results)
+    return {"exhaustive_short_histories": {
+                "alphabet": len(EXH_ALPHABET), "executed": n_exh,
+                "all_valid_sequences_up_to_length_2": len(exh_sequences(2)),
+                "note": "every valid sequence over the 15-variant mutator alphabet (from an empty "
+                        "estimator and after a register_system prefix) with seeded payloads; "
+                        "length <= 2 in the quick tier, <= 3 in the thorough tier"},
+            "distinct_crash_points_hit": len(pts),
             "crash_points_by_file": {f: sum(1 for k in pts if k.startswith(f + ":"))
                                      for f in sorted({k.rsplit(":", 1)[0] for k in pts})},
             "nf_table": NF_TABLE,
